@@ -11,6 +11,7 @@ package c03
 
 import (
 	"fmt"
+	tmlog "github.com/tendermint/tendermint/libs/log"
 	"os"
 	"runtime"
 	"sync"
@@ -55,14 +56,27 @@ func runOne(c *verdict.Ctx, idx int) {
 	net := sim.NewNet(r, nopt)
 	defer net.Close()
 	net.TraceOn = c.Replay() != "" || os.Getenv("VERIF_C03_CASE") != ""
+	if v := os.Getenv("VERIF_C03_LOGNODE"); v != "" {
+		var ln int
+		fmt.Sscan(v, &ln)
+		if nd := net.Nodes[ln]; nd != nil {
+			nd.CS.SetLogger(tmlog.NewTMLogger(tmlog.NewSyncWriter(os.Stdout)))
+		}
+	}
 	net.Start()
 	net.Pump()
 	// adversarial prefix: random asynchrony, with a scripted strategy in most executions
 	steps := cfg.Steps / 2
 	recipe := "none"
-	switch r.Intn(4) {
+	switch r.Intn(5) {
 	case 0:
 		net.AsyncRun(steps)
+	case 4:
+		net.AsyncRun(r.Intn(steps + 1))
+		_, hi0 := net.MinMaxHeight()
+		net.RunSync(hi0, 60, 300, nil)
+		net.Synchronous = false
+		recipe = "commit-then-round-skip:" + net.RecipeCommitThenRoundSkip()
 	case 1:
 		net.AsyncRun(r.Intn(steps + 1))
 		_, hi0 := net.MinMaxHeight()
@@ -213,6 +227,15 @@ func runOne(c *verdict.Ctx, idx int) {
 		for _, i := range net.Order {
 			nd := net.Nodes[i]
 			rs := nd.CS.GetRoundState()
+			for r := int32(0); r <= rs.Round; r++ {
+				if pc := rs.Votes.Precommits(r); pc != nil {
+					fmt.Printf("DEBUG node %d round %d precommits %s\n", i, r, pc.StringShort())
+				}
+				if pv := rs.Votes.Prevotes(r); pv != nil {
+					fmt.Printf("DEBUG node %d round %d prevotes %s\n", i, r, pv.StringShort())
+				}
+			}
+			fmt.Printf("DEBUG node %d commitRound=%d parts=%v\n", i, rs.CommitRound, rs.ProposalBlockParts.StringShort())
 			if rs.ProposalBlock != nil {
 				err := nd.Exec.ValidateBlock(nd.CS.GetState(), rs.ProposalBlock)
 				fmt.Printf("DEBUG node %d proposal block %X evidence=%d validate: %v\n", i, rs.ProposalBlock.Hash(), len(rs.ProposalBlock.Evidence.Evidence), err)
